@@ -511,7 +511,7 @@ func (s *Server) dispatchLocked(c *conn, req *Req) (Reply, action) {
 			req.Kind = ReqRejected
 			return Err(fmt.Sprintf("ERR unknown command '%s'", strings.ToLower(cmd))), actNone
 		}
-		if known && !arityOK(ci, len(args)+1) {
+		if known && !arityOK(ci, len(args)+1) && !s.logOnly(ci, cmd, args) {
 			c.dirty = true
 			req.Kind = ReqRejected
 			return Err(fmt.Sprintf("ERR wrong number of arguments for '%s' command", strings.ToLower(cmd))), actNone
@@ -542,7 +542,7 @@ func (s *Server) dispatchLocked(c *conn, req *Req) (Reply, action) {
 		req.Kind = ReqRejected
 		return Err(fmt.Sprintf("ERR unknown command '%s', with args beginning with: ", strings.ToLower(cmd))), actNone
 	}
-	if !arityOK(ci, len(args)+1) {
+	if !arityOK(ci, len(args)+1) && !s.logOnly(ci, cmd, args) {
 		req.Kind = ReqRejected
 		return Err(fmt.Sprintf("ERR wrong number of arguments for '%s' command", strings.ToLower(cmd))), actNone
 	}
@@ -557,6 +557,11 @@ func (s *Server) dispatchLocked(c *conn, req *Req) (Reply, action) {
 	}
 	r := s.applyLocked(c, cmd, args, req.Seq, req.Seq, 0, 0, req.AtMs)
 	return r, actNone
+}
+
+// logOnly: the command is only logged, not executed (Options.LogOnly), so its shape is not checked.
+func (s *Server) logOnly(ci *cmdInfo, cmd string, args [][]byte) bool {
+	return ci != nil && ci.write && ci.conn == nil && s.opt.LogOnly != nil && s.opt.LogOnly(cmd, args)
 }
 
 func arityOK(ci *cmdInfo, n int) bool {
